@@ -134,6 +134,7 @@ int main(int argc, char** argv) {
     }
     if (w == "new") { cur = api->create_session(); sessions.push_back(cur); alive.push_back(cur != 0); ret = cur != 0; }
     else if (w == "use") { size_t k; is >> k; cur = k < sessions.size() ? sessions[k] : 0; }
+    else if (w == "cleanup_all") { api->cleanup_all_sessions(); for (size_t k = 0; k < alive.size(); ++k) alive[k] = false; }
     else if (w == "destroy") { size_t k; is >> k; ret = k < sessions.size() ? api->destroy_session(sessions[k]) : 0; if (k < alive.size() && ret) alive[k] = false; }
     else if (w == "schema") { std::string id; is >> id; ret = api->select_schema(cur, id.c_str()); }
     else if (w == "key") { long code, mask; is >> code >> mask; ret = api->process_key(cur, (int)code, (int)mask); }
